@@ -322,6 +322,18 @@ def _mutation_events(tid0):
             if m == n:
                 zc[1, :] = 0
         out.append(("zero-row-col", zc))
+        # "dirty" versions that still pass every tolerance-based structure test: rounding-level (1e-17) vector parts and
+        # negative zeros on the diagonal, rounding-level entries where exact zeros would be; a routine that cleans its
+        # input must clean a COPY
+        if m == n:
+            dd = a.copy()
+            sc_ = float(np.max(np.abs(a))) or 1.0
+            for i in range(n):
+                dd[i, i, 1:] = dd[i, i, 1:] + np.array([1e-17, -2e-17, 0.0]) * sc_ if i % 2 == 0 else np.where(dd[i, i, 1:] == 0, -0.0, dd[i, i, 1:])
+            out.append(("rounding-level-dirt-on-diagonal", dd))
+        nz = a.copy()
+        nz[np.abs(nz) < 0.2] *= -0.0
+        out.append(("negative-zeros", nz))
         return out
 
     skip_exc = (ValueError, ZeroDivisionError, np.linalg.LinAlgError)
@@ -331,7 +343,7 @@ def _mutation_events(tid0):
             tid += 1
             cur = [v[vi][1] if vi < len(v) else v[0][1] for v in vlists]
             vname = vlists[0][vi][0] if vi < len(vlists[0]) else "dense"
-            if name.startswith("QGMRES") and vname in ("zero", "diagonal", "zero-row-col", "first-row-col-decoupled"):
+            if name.startswith("QGMRES") and vname in ("zero", "diagonal", "zero-row-col", "first-row-col-decoupled", "negative-zeros"):
                 cur = [cur[0] + 3 * np.eye(cur[0].shape[0])[:, :, None] * [1.0, 0, 0, 0], args[1]]   # keep the system regular
             qa = [q_from_float(a) if a.ndim == 3 else quaternion.as_quat_array(a.copy()) for a in cur]
             before = [sha(a) for a in qa]
